@@ -121,6 +121,10 @@ def run(ck):
         known = {k['class'] for k in vlib.known_findings() if k.get('property') == 'C19' and k.get('status') == 'open'}
         classes = {}
         for f in summary['failures']:
+            # a historical read (AS OF) is admitted on the governance block the element carried
+            # at that coordinate, not on the one it carries now: its own class
+            if f['what'].startswith('answer-depends-on-hidden') and ' AS OF ' in f['command']:
+                f['what'] = 'historical-read-judged-on-past-governance-block'
             classes.setdefault(f['what'], f)
             ck.violation(f['what'], 'engine-level non-interference: ' + f['what'] + ' on ' + f['command'], True, {'failing_input': f})
         ck.ob('results for p on S = p on S with hidden content changed = p on the restricted clone = owner on the '
